@@ -292,14 +292,19 @@ class Slice:
                     self.consts.add(o["def"].split("::")[-1])
 
 
-def run(ctx, config="all"):
-    rep = Report("R-FACADE", "every facade function (operator impls in all by-value/by-ref/assign shapes, the Bits "
+def run(ctx, config="all", traits=None, floor=None):
+    """traits: restrict to the core::ops / Sum / Product impls on Uint of these traits (e.g. {"Sub", "SubAssign"}): the
+    operator surface of one arithmetic property; floor: the number of such impls counted by hand."""
+    rep = Report("R-FACADE" if traits is None else "R-FACADE/operators", "every facade function (operator impls in all by-value/by-ref/assign shapes, the Bits "
                  "wrapper, num-traits, num-integer, Sum/Product, Zeroize) forwards to the inherent method the oracle "
                  "table names: resolved delegate identity, argument provenance (parameter i -> argument i through "
                  "moves, borrows, casts and wrappers only), no self-recursion, result returned through wrappers only")
     prog = ctx.prog(config)
     _PROG[0] = prog
     bodies = facade_bodies(prog)
+    if traits is not None:
+        bodies = [b for b in bodies if b["file"] in ("src/bits.rs", "src/add.rs", "src/mul.rs", "src/div.rs")
+                  and fkey(prog, b).split("::")[0] in traits]
     counts = {}
     for b in bodies:
         v = prog.view(b, FACADE_CFG)
@@ -508,7 +513,10 @@ def run(ctx, config="all"):
         else:
             rep.ok(key, where, "%s -> %s" % (fk, short(dname)))
     rep.analysed = {"build_config": config, "facades": len(bodies), "per_file": counts}
-    if config.startswith("all"):
+    if traits is not None:
+        rep.analysed["traits"] = sorted(traits)
+        rep.floor("operator impls of %s" % "/".join(sorted(traits)), len(bodies), floor or 1)
+    elif config.startswith("all"):
         rep.floor("facades", len(bodies), 290)
         rep.floor("bits.rs operator impls", counts.get("src/bits.rs", 0), 100)
         rep.floor("bit_arr.rs", counts.get("src/bit_arr.rs", 0), 60)
